@@ -792,6 +792,14 @@ func checkOnHelpersReport(w *World, c *Check) {
 				}
 			}
 		}
+		// a callback made for every member of a list inside a loop: leaving that loop (an empty list included) has
+		// passed the callback for all there was
+		lhOn := loopHeaders(f)
+		for b := range calls {
+			for h := range lhOn[b] {
+				calls[h] = true
+			}
+		}
 		var offending ssa.Instruction
 		seenB := map[*ssa.BasicBlock]bool{}
 		work := []*ssa.BasicBlock{f.Blocks[0]}
